@@ -18,9 +18,25 @@ pub fn pair_case(i: u64) -> (u64, u64, u64) {
 /// The plan of run `i` of property `prop` under master seed `master`.
 pub fn plan_for(master: u64, prop: &str, i: u64) -> Plan {
     if prop == "C17" {
-        // four two-thread cases, then one three-thread case
-        let (t, r) = (i / 5, i % 5);
-        if r < 4 {
+        // four two-thread cases, one three-thread case with a fixed nesting, one randomized
+        // multi-thread run (three or four threads under a seeded scheduler)
+        let (t, r) = (i / 6, i % 6);
+        if r == 5 {
+            let (hist, slot, op) = pair_case(mix(&[t, 0x5a]) % 12_480);
+            let mut op2 = mix(&[t, 0x5b]) % 13;
+            if op2 == op {
+                op2 = (op2 + 1) % 13;
+            }
+            let mut p = gen(prop, run_seed(master, prop, hist));
+            p.flags.push(format!("pair_slot={}", slot));
+            p.flags.push(format!("pair_op={}", op));
+            p.flags.push(format!("pair_op2={}", op2));
+            p.flags.push(format!("pair_rand={}", mix(&[t, 0x5c]) % 1_000_000));
+            if mix(&[t, 0x5d]) % 2 == 0 {
+                p.flags.push(format!("pair_op3={}", mix(&[t, 0x5e]) % 4));
+            }
+            p
+        } else if r < 4 {
             let (hist, slot, op) = pair_case(4 * t + r);
             let mut p = gen(prop, run_seed(master, prop, hist));
             p.flags.push(format!("pair_slot={}", slot));
